@@ -113,11 +113,13 @@ class SymCtx(_Base):
 
     def choice(self, name, options):
         """a finite choice made by forking (one path per option)"""
+        self.run.choices = getattr(self.run, "choices", {})
         for i, o in enumerate(options[:-1]):
             b = z3.Bool(f"{name}=={i}")
             if sym.SBool(b).__bool__():
-                self.run.notes.append((name, i))
+                self.run.choices[name] = i
                 return o
+        self.run.choices[name] = len(options) - 1
         return options[-1]
 
     @property
@@ -139,6 +141,11 @@ class SymCtx(_Base):
         if isinstance(cond, (bool, np.bool_)):
             cond = z3.BoolVal(bool(cond))
         self.run.oblige(label, "post", cond, using=using, meta=meta)
+
+    def ensure_nf(self, label, a, b):
+        """equality of abstract matrices, decided by normal forms (pyvc.amat)"""
+        ok = a.same(b)
+        self.run.oblige(label, "post", z3.BoolVal(bool(ok)), using=[], meta={"decided_by": "amat-normal-form", "lhs": repr(a), "rhs": repr(b)})
 
     def lemma(self, label, cond, using=None, budget_ms=None):
         """assert-then-assume ghost step (splits a hard obligation)"""
@@ -315,7 +322,7 @@ class _RealWorld:
 # drivers
 # --------------------------------------------------------------------------------------------
 
-MAX_PATHS = 400
+MAX_PATHS = 1500
 
 
 def run_symbolic(cdef):
@@ -355,6 +362,7 @@ def run_symbolic(cdef):
             o.meta["clause"] = base
             o.meta["path"] = paths
             o.meta["inputs"] = sorted(run.inputs)
+            o.meta["choices"] = dict(getattr(run, "choices", {}))
             o.meta["trig_inputs"] = {str(a): (str(cc), str(ss)) for (a, cc, ss) in run.trig.values()
                                      if str(a) in run.inputs and z3.is_const(cc) and z3.is_const(ss)}
             o.name = f"{base}@p{paths}" + (f".{k}" if k else "")
